@@ -1,6 +1,7 @@
 /-
   Finv (C04), part 38: `create_missing_prefixes` and `deduplicate_namespaces` preserve the
-  invariant: they are sequences of `namespaces_mut(..).insert` / `remove` calls (Model/FatomSpec2),
+  invariant: they are sequences of `namespaces_mut(..).insert` / `remove` calls (Model/FatomSpec2;
+  `deduplicate_namespaces` one such sequence per pass),
   each of which does (`call_inv`: every constructor of `Forest.Call`).
 -/
 import XotModel.Lemmas.FinvReach2
@@ -131,13 +132,31 @@ theorem dedupCalls_wellKinded (env : Env) (f : Forest) (node : Nat) :
       · cases hc
       · obtain ⟨fp, _, h2⟩ := List.mem_flatMap.mp hc
         split at h2
-        · obtain ⟨pfx, _, rfl⟩ := List.mem_map.mp h2
+        · simp only [List.mem_singleton] at h2
+          subst h2
           trivial
         · cases h2
 
+/-- Every pass keeps the invariant, so does the loop, whatever the fuel and however it ends. -/
+theorem dedupLoop_inv (env : Env) (node : Nat) : ∀ (fuel : Nat) {f : Forest}, f.Inv →
+    (dedupLoop env node fuel f).1.Inv
+  | 0, _, hi => hi
+  | fuel + 1, f, hi => by
+    unfold dedupLoop
+    dsimp only
+    split
+    · exact hi
+    · have h1 := runCalls_inv (f.dedupCalls env node) hi (dedupCalls_wellKinded env f node)
+      rcases hr : f.runCalls (f.dedupCalls env node) with ⟨f', r⟩
+      rw [hr] at h1
+      cases r with
+      | ok => exact dedupLoop_inv env node fuel h1
+      | err x => exact h1
+      | panic => exact h1
+
 theorem deduplicateNamespaces_inv {f : Forest} (hi : f.Inv) (env : Env) (node : Nat) :
     (f.deduplicateNamespaces env node).1.Inv :=
-  runCalls_inv _ hi (dedupCalls_wellKinded env f node)
+  dedupLoop_inv env node _ hi
 
 end Forest
 end XotModel
